@@ -907,6 +907,10 @@ class Engine:
         if isinstance(v.ty, TDict):
             order = self.dict_order(v, st)
             return order.ty.len(order.t), (lambda i: Val(v.ty.key, z3.Select(order.ty.arr(order.t), i)))
+        if isinstance(v.ty, TSet):
+            order = self.set_order(v, st)
+            self._last_dict_order = order
+            return order.ty.len(order.t), (lambda i: Val(v.ty.key, z3.Select(order.ty.arr(order.t), i)))
         raise Unsupported(f"iteration over {v.ty}", node)
 
     def _zip_star(self, node, st):
@@ -956,6 +960,23 @@ class Engine:
                                             z3.And(0 <= pos(k), pos(k) < sq.len(o.t),
                                                    z3.Select(sq.arr(o.t), pos(k)) == k)),
                             patterns=[pos(k), z3.Select(ty.dom(d.t), k)]))
+        return o
+
+    def set_order(self, sv: Val, st: State) -> Val:
+        """Iteration order of a set: an unknown duplicate-free enumeration of its members (ghost witness `pos`)."""
+        ty: TSet = sv.ty
+        sq = TSeq(ty.key)
+        o = sq.fresh("sorder")
+        pos = z3.Function(fresh_name("spos"), ty.key.sort(), z3.IntSort())
+        i = z3.Int(fresh_name("oi"))
+        k = z3.Const(fresh_name("ok"), ty.key.sort())
+        oi = z3.Select(sq.arr(o.t), i)
+        st.assume(sq.len(o.t) == ty.card(sv.t))
+        st.assume(z3.ForAll([i], z3.Implies(z3.And(0 <= i, i < sq.len(o.t)),
+                                            z3.And(z3.Select(ty.mem(sv.t), oi), pos(oi) == i)), patterns=[oi]))
+        st.assume(z3.ForAll([k], z3.Implies(z3.Select(ty.mem(sv.t), k),
+                                            z3.And(0 <= pos(k), pos(k) < sq.len(o.t), z3.Select(sq.arr(o.t), pos(k)) == k)),
+                            patterns=[pos(k), z3.Select(ty.mem(sv.t), k)]))
         return o
 
     def bind(self, tgt: ast.expr, v, st: State, node):
@@ -1149,6 +1170,25 @@ class Engine:
         if isinstance(base.ty, TSeq):
             idx = self.index(base, key, st, node)
             return Val(base.ty.elem, z3.Select(base.ty.arr(base.t), idx))
+        if isinstance(base.ty, TDict) and getattr(base.ty, "default", None) is not None:
+            # defaultdict: reading a missing key enters the factory's value (an empty container) under it
+            if not isinstance(node.value, ast.Name):
+                raise Unsupported("subscript of a defaultdict that is not a plain variable", node)
+            dty = base.ty
+            k = self.coerce(key, dty.key, st, node)
+            vty = dty.val
+            if dty.default == "set" and isinstance(vty, TSet):
+                empty = vty.mk(z3.K(vty.key.sort(), z3.BoolVal(False)), z3.IntVal(0))
+            elif dty.default == "dict" and isinstance(vty, TDict):
+                empty = vty.empty()
+            else:
+                raise Unsupported(f"defaultdict({dty.default}) with values of sort {vty}", node)
+            had = z3.Select(dty.dom(base.t), k.t)
+            new = dty.mk(z3.Store(dty.dom(base.t), k.t, True),
+                         z3.If(had, dty.vals(base.t), z3.Store(dty.vals(base.t), k.t, empty)),
+                         z3.If(had, dty.size(base.t), dty.size(base.t) + 1))
+            st.env[node.value.id] = Val(dty, new, True)
+            return Val(vty, z3.Select(dty.vals(new), k.t), True)
         if isinstance(base.ty, TDict):
             k = self.coerce(key, base.ty.key, st, node)
             self.raise_if(st, z3.Not(z3.Select(base.ty.dom(base.t), k.t)), "KeyError", node.lineno)
@@ -2252,15 +2292,36 @@ class Engine:
                 new = ty.mk(z3.Store(ty.mem(recv.t), x.t, False), z3.If(had, ty.card(recv.t) - 1, ty.card(recv.t)))
             self.assign(f.value, Val(ty, new, True), st, node, writeback=True)
             return VNone
-        if isinstance(recv.ty, TSet) and name in ("add", "discard") and len(args) == 1:
+        if isinstance(recv.ty, TSet) and name == "update" and len(args) == 1:
+            # s.update(xs): membership afterwards = membership before, or occurrence in xs (a sequence or a set)
             ty = recv.ty
-            x = self.coerce(args[0], ty.key, st, node)
-            had = z3.Select(ty.mem(recv.t), x.t)
-            if name == "add":
-                new = ty.mk(z3.Store(ty.mem(recv.t), x.t, True), z3.If(had, ty.card(recv.t), ty.card(recv.t) + 1))
+            xs = args[0]
+            if isinstance(xs.ty, TTuple):
+                xs = self.coerce(xs, TSeq(ty.key), st, node)
+            r = ty.fresh("upd")
+            k = z3.Const(fresh_name("uk"), ty.key.sort())
+            if isinstance(xs.ty, TSeq) and xs.ty.elem.name == ty.key.name:
+                i = z3.Int(fresh_name("ui"))
+                n = xs.ty.len(xs.t)
+                xi = z3.Select(xs.ty.arr(xs.t), i)
+                occurs = z3.Exists([i], z3.And(0 <= i, i < n, xi == k))
+                fwd = z3.Implies(z3.And(0 <= i, i < n), z3.Select(ty.mem(r.t), xi))
+                try:
+                    st.assume(z3.ForAll([i], fwd, patterns=[z3.Select(ty.mem(r.t), xi)]))
+                except z3.Z3Exception:  # (the source is a conditional expression: a pattern may not contain an ite)
+                    st.assume(z3.ForAll([i], fwd))
+                empty_src = n == 0
+            elif isinstance(xs.ty, TSet) and xs.ty.key.name == ty.key.name:
+                occurs = z3.Select(xs.ty.mem(xs.t), k)
+                empty_src = xs.ty.card(xs.t) == 0
             else:
-                new = ty.mk(z3.Store(ty.mem(recv.t), x.t, False), z3.If(had, ty.card(recv.t) - 1, ty.card(recv.t)))
-            self.assign(f.value, Val(ty, new, True), st, node, writeback=True)
+                raise Unsupported(f"set.update with {xs.ty}", node)
+            st.assume(z3.ForAll([k], z3.Select(ty.mem(r.t), k) == z3.Or(z3.Select(ty.mem(recv.t), k), occurs),
+                                patterns=[z3.Select(ty.mem(r.t), k)]))
+            st.assume(z3.And(ty.card(r.t) >= ty.card(recv.t),
+                             (ty.card(r.t) == 0) == z3.And(ty.card(recv.t) == 0, empty_src)))
+            r.mut = True
+            self.assign(f.value, r, st, node, writeback=True)
             return VNone
         raise Unsupported(f"method .{name} on {recv.ty}", node)
 
@@ -2474,6 +2535,14 @@ class Engine:
         self.raise_if(st, xs[2] == 0, "ValueError", node.lineno)
         return Val(TRange, TRange.mk(start=xs[0], stop=xs[1], step=xs[2]))
 
+    def b_defaultdict(self, node, st, hint=None):
+        """defaultdict(set | dict | list): an empty dict whose sort (from contract.locals_) says what a missing key yields."""
+        if len(node.args) != 1 or node.keywords or not isinstance(node.args[0], ast.Name):
+            raise Unsupported("defaultdict(...) form", node)
+        if not isinstance(hint, TDict) or getattr(hint, "default", None) != node.args[0].id:
+            raise Unsupported("defaultdict without a matching sort (TDict with .default) in contract.locals_", node)
+        return Val(hint, hint.empty(), True)
+
     def b_slice(self, node, st, hint=None):
         if len(node.args) == 1 and isinstance(node.args[0], ast.Constant) and node.args[0].value is None:
             return Val(TSlice, TSlice.lit("slice(None)"))
@@ -2506,6 +2575,10 @@ class Engine:
             st.assume(ty.size(d.t) >= 0)
             d.mut = True
             return d
+        if len(node.args) == 1 and not node.keywords:
+            v = self.eval(node.args[0], st)
+            if isinstance(v.ty, TDict):  # dict(d): a plain dict with the same items
+                return Val(v.ty, v.t, True)
         raise Unsupported("dict(...) form", node)
 
     def _as_seq(self, v: Val, st, node) -> Val:
